@@ -121,4 +121,65 @@ def auditedSites : List Site := [
   ⟨"handle_hash_conflict", 0, 0, ["CloudException"], false, false, false, false, true, [], [], []⟩,
   ⟨"handle_split_conflict", 0, 0, ["FileNotFoundError"], false, false, false, false, false, [], ["False"], []⟩]
 
+/-! ## where the priority of an entry is (re)computed: `prioritize(` call sites and what precedes them
+
+For the functions of state.py through which a path — hence the application's class — or a priority changes, in source
+order: every `return` / `continue`, every call of `prioritize(`, `_update_kids`, `_update_kids_of`, `_change_path`, `punt`, every
+write of a `.path` / `.priority` attribute, each with the chain of guards it sits under (`ast.unparse` of the tests).
+`_change_path` (state.py 819-856): the only exit before the `prioritize(side, path)` refresh is the unchanged-path one;
+`_update_kids_of` re-enters `_change_path` for every kid through `sub[side].path = new_path`, skipping only entries that are
+themselves being moved. -/
+
+structure PrioItem where
+  kind   : String
+  guards : List String
+  deriving Repr, DecidableEq
+
+/-- the exits (`return`) that come before the first `prioritize(` call of a function, with their guards -/
+def returnsBeforePrioritize (items : List PrioItem) : List (List String) :=
+  ((items.takeWhile (fun i => i.kind != "prioritize")).filter (fun i => i.kind == "return")).map (·.guards)
+
+def auditedPrioChangePath : List PrioItem := [
+  ⟨"return", ["prior_path == path"]⟩,
+  ⟨"write:_path", ["path", "ent[side].oid in path_ents"]⟩,
+  ⟨"write:_path", ["path"]⟩,
+  ⟨"_update_kids", ["path"]⟩,
+  ⟨"prioritize", ["path"]⟩,
+  ⟨"write:priority", ["path", "new_priority != ent.priority"]⟩]
+
+def auditedPrioChangeOid : List PrioItem := [
+  ]
+
+def auditedPrioUpdate : List PrioItem := [
+  ]
+
+def auditedPrioUpdateEntry : List PrioItem := [
+  ⟨"write:path", ["path is not None", "new_path != ent[side].path"]⟩]
+
+def auditedPrioUpdateKids : List PrioItem := [
+  ⟨"_update_kids_of", ["try"]⟩]
+
+def auditedPrioUpdateKidsOf : List PrioItem := [
+  ⟨"continue", ["ent[side].otype == DIRECTORY and prior_path != path and (not prior_path is None)", "for (sub, relative) in self.get_kids(prior_path, side)", "any((sub is moving for moving in self._kids_moving))"]⟩,
+  ⟨"write:path", ["ent[side].otype == DIRECTORY and prior_path != path and (not prior_path is None)", "for (sub, relative) in self.get_kids(prior_path, side)"]⟩]
+
+def auditedPrioGetLatest : List PrioItem := [
+  ⟨"return", ["ent[side].oid is None"]⟩,
+  ⟨"return", ["not info"]⟩,
+  ⟨"write:path", ["ent[side].path != new_path"]⟩]
+
+def auditedPrioSplit : List PrioItem := [
+  ⟨"return", []⟩]
+
+def auditedPrioSetItem : List PrioItem := [
+  ⟨"write:path", []⟩,
+  ⟨"write:_path", []⟩]
+
+def auditedPrioPunt : List PrioItem := [
+  ⟨"write:priority", []⟩]
+
+def auditedPrioFinished : List PrioItem := [
+  ⟨"return", ["ent[1].changed or ent[0].changed"]⟩,
+  ⟨"write:priority", ["for e in self._changeset", "e.priority > 0 and ent.is_related_to(e)"]⟩]
+
 end CS.SchedSites
